@@ -262,7 +262,43 @@ def r7(ctx):
     ctx.floor(R, 3)
 
 
+def r8(ctx):
+    R = "C09-R8"
+    ctx.rule(R, "source / destination are never swapped on the UDP send path: in every send_loopback / World::send_message call of UdpSocket::send "
+                "(including the broadcast and multicast fan-out closures) the first address derives from the socket's own local address and the "
+                "second does not; the Envelope handed to the host in send_loopback is built as {src, dst} from its parameters in order")
+    LA = "field:turmoil::net::udp::UdpSocket::local_addr"
+    s = ctx.body(R, "turmoil::net::udp::UdpSocket::send")
+    n = 0
+    if s:
+        for fb in ctx.w.family(s.id):
+            for bb, t in fb.calls(re.compile(r"World::send_message$|udp::send_loopback$")):
+                off = 1 if t["f"].endswith("send_message") else 0
+                a0 = Slicer(ctx.w).atoms(fb, t["args"][off])
+                a1 = Slicer(ctx.w).atoms(fb, t["args"][off + 1])
+                n += 1
+                ok = LA in a0 and LA not in a1
+                ctx.inst(R, f"send:{t['f'].rsplit('::', 1)[1]}#{n}", ok, t["s"], "(source = own address, destination = target)" if ok else
+                         f"`{t['f']}` is called with source and destination swapped / mixed: the datagram is delivered to the wrong socket and reports the wrong origin")
+    sl = ctx.body(R, "turmoil::net::udp::send_loopback")
+    if sl:
+        ok = False
+        for fb in ctx.w.family(sl.id):
+            for bb, i, st in fb.all_stmts():
+                r = st["r"]
+                if r["k"] == "agg" and r.get("adt") == "turmoil::envelope::Envelope":
+                    m = dict(zip(r["fields"], r["ops"]))
+                    a_s = Slicer(ctx.w).atoms(fb, m["src"])
+                    a_d = Slicer(ctx.w).atoms(fb, m["dst"])
+                    sfx = "@" + sl.id
+                    has = lambda at, k: any(a.startswith(f"arg:{k}:") and a.endswith(sfx) for a in at)
+                    ok = has(a_s, 1) and not has(a_s, 2) and has(a_d, 2) and not has(a_d, 1)
+        ctx.inst(R, "send_loopback:envelope-order", ok, sl.span, "Envelope { src: first, dst: second }" if ok else "send_loopback builds its Envelope with src / dst swapped")
+    ctx.floor(R, 6)
+
+
 def run(ctx):
+    r8(ctx)
     r7(ctx)
     r1(ctx)
     r2(ctx)
